@@ -272,7 +272,13 @@ def run(model, rep, tier):
                 okk = stored if created_here else from_dict
                 rep.check(okk, "R-17.4", qn, where(f2, st), f"`{who}.link_after(...)` paired with the dict entry",
                           f"`{who}.link_after(...)` links a node the dict does not hold", stmt=stmt_key(st))
-    rep.floor("R-17.4-pairs", n_pair, 6)
+        # any other way of dropping a dict entry (pop/popitem/clear without re-initialising the ring) leaves its node in the recency ring
+        for c in ast.walk(f2.node):
+            if isinstance(c, ast.Call) and isinstance(c.func, ast.Attribute) and src(c.func.value) == "self.data" and c.func.attr in ("pop", "popitem"):
+                n_pair += 1
+                rep.bad("R-17.4", qn, where(f2, c), f"`{src(c)[:40]}` removes a dict entry without unlinking its node: the ring keeps a node the dict forgot, and when that node reaches the cold end "
+                        "put() evicts the wrong key (or raises KeyError)", stmt="dict-entry-dropped-without-unlink")
+    rep.floor("R-17.4-pairs", n_pair, 5)
     # get moves a hit to the front
     g = model.func("dns.resolver.LRUCache.get")
     cfgg = CFG(g.node, implicit_exc=False)
@@ -312,6 +318,9 @@ def _unlinked_before(fi, del_stmt, owner):
 
 
 WITNESSES = [
+    {"id": "c17-flush-key-without-unlink", "rule": "R-17.4", "file": "dns/resolver.py", "expect": "fires",
+     "old": "                node = self.data.get(key)\n                if node is not None:\n                    node.unlink()\n                    del self.data[node.key]\n            else:\n                gnode = self.sentinel.next",
+     "new": "                self.data.pop(key, None)\n            else:\n                gnode = self.sentinel.next"},
     {"id": "c17-lru-serve-at-expiry", "rule": "R-17.2", "file": "dns/resolver.py", "expect": "fires",
      "old": "            if node.value.expiration <= time.time():\n                del self.data[node.key]",
      "new": "            if node.value.expiration < time.time():\n                del self.data[node.key]"},
